@@ -6,6 +6,7 @@ import (
 	"github.com/olric-data/olric/config"
 	"github.com/olric-data/olric/internal/cluster/partitions"
 	"github.com/olric-data/olric/internal/discovery"
+	"github.com/tidwall/redcon"
 )
 
 // VerifNew builds a RoutingTable value directly (no discovery, no server): enough for the services that only
@@ -31,4 +32,36 @@ func (r *RoutingTable) VerifAddMember(m discovery.Member) {
 	r.members.Lock()
 	r.members.Add(m)
 	r.members.Unlock()
+}
+
+// recording connection for handler harnesses
+type vpRtConn struct {
+	redcon.Conn
+	replies int
+}
+
+func (c *vpRtConn) WriteError(msg string) { c.replies++ }
+func (c *vpRtConn) WriteInt(num int)      { c.replies++ }
+func (c *vpRtConn) WriteString(s string)  { c.replies++ }
+
+// VerifC16_LengthOfPart: the internal partition-length query answers (a number or an error) for every argument
+// vector, including partition ids far outside the table and the RC flag, without dereferencing a missing partition.
+func VerifC16_LengthOfPart() {
+	maxLen := vpBound("maxlen")
+	primary := partitions.New(3, partitions.PRIMARY)
+	backup := partitions.New(3, partitions.BACKUP)
+	r := VerifNew(discovery.Member{Name: "m0:1", ID: 1}, &config.Config{PartitionCount: 3}, primary, backup, 1, 0)
+	r.joined = make(chan struct{})
+	close(r.joined)
+	n := 1 + vpChoose("nargs", 4)
+	args := make([][]byte, n)
+	args[0] = []byte("internal.node.lengthofpart")
+	names := [5]string{"a0", "a1", "a2", "a3", "a4"}
+	for i := 1; i < n; i++ {
+		args[i] = vpLazyBytes(names[i], maxLen)
+	}
+	conn := &vpRtConn{}
+	r.lengthOfPartCommandHandler(conn, redcon.Command{Args: args})
+	vpAssert(conn.replies == 1, "handler-replies-once")
+	vpReach("end")
 }
